@@ -42,7 +42,7 @@ TABLES = [
     ('T21', 'Model.remove_association', ('C05', 'C01')),
     ('T22', 'Model.remove_asset_from_association', ('C05', 'C07', 'C02')),
     ('T13', 'LanguageGraph._get_associations_for_asset_type', ('C15',)),
-    ('T20', 'LanguageGraph.get_association_by_fields_and_assets', ('C15', 'C18')),
+    ('T20', 'LanguageGraph.get_association_by_fields_and_assets', ('C15', 'C18', 'C19')),
     ('T17', 'AttackerAttachment.get_entry_point_tuple', ('C05', 'C07')),
     ('T18', 'AttackerAttachment.add_entry_point', ('C05', 'C07', 'C18')),
     ('T19', 'AttackerAttachment.remove_entry_point', ('C05',)),
